@@ -1,0 +1,22 @@
+//go:build verif
+
+package bpool
+
+import "sync/atomic"
+
+var verifHook atomic.Value // func(op string, obj interface{})
+
+// VerifSetHook installs a callback invoked on every Get and Put.
+// It only exists when built with the verif build tag.
+func VerifSetHook(f func(op string, obj interface{})) {
+	if f == nil {
+		f = func(string, interface{}) {}
+	}
+	verifHook.Store(f)
+}
+
+func verifPool(op string, obj interface{}) {
+	if f, _ := verifHook.Load().(func(op string, obj interface{})); f != nil {
+		f(op, obj)
+	}
+}
